@@ -1,5 +1,6 @@
 """C05 — fast matching keeps inliers, rejects outliers and weak peaks, never raises."""
 import warnings
+from fractions import Fraction
 
 import numpy as np
 
@@ -20,8 +21,12 @@ RULE = ("correspondence: Matcher.fastmatch on structured lattices (|a|,|b| 20..4
         "duplicates, collinear, zero weights, parallel vectors). Non-trivial: outliers or weak peaks present and start "
         "perturbed (distinct = case hashes).")
 ASSUMPTIONS = [
-    "the robustness window of the statement (start within ~1 px / 0.2 px, inliers within 0.3 px kept, half-cell outliers "
-    "rejected) is NOT proved — decided by the oracle with preconditions derived from the selection formula",
+    "the robustness window of the statement is proved in exact arithmetic for ONE round against any lattice (inlier_matched: "
+    "displacement eps with (8/3) eps^2 < tol^2 keeps the peak with its indices; half_cell_rejected) and END TO END for "
+    "noise-free node peaks (fastmatch_exact_recovery: exact lattice, exactly the strong node peaks, true indices, from any "
+    "start whose first round catches a rank-3 set of node peaks only; instances are run on the implementation and on the "
+    "compiled model); for noisy peaks the composition of both rounds (how far the first fit moves the lattice) is NOT proved "
+    "— decided by the oracle with preconditions derived from the selection formula",
     "A-LA: lstsq / solve; rank-deficient selections (minimum-norm lstsq solution) are not modelled",
 ]
 
@@ -104,6 +109,104 @@ def call(p, pts=None, zero=None, a=None, b=None):
                        b=np.asarray(p["start_b"] if b is None else b, dtype=np.float64).copy())
 
 
+
+def gen_exact(rng, k):
+    """an instance of theorem fastmatch_exact_recovery: every number is a multiple of 1/16 (exact in binary floating point
+    and as a rational): noise-free node peaks, half-cell outliers, weak node peaks, a perturbed start"""
+    q8 = lambda v: np.round(np.asarray(v, dtype=float) * 8) / 8
+    while True:
+        na, nb = rng.uniform(20, 40, 2)
+        ang0, ang = rng.uniform(0, 2 * np.pi), np.deg2rad(rng.uniform(60, 120))
+        a = q8(na * np.array([np.sin(ang0), np.cos(ang0)]))
+        b = q8(nb * np.array([np.sin(ang0 + ang), np.cos(ang0 + ang)]))
+        if 4 * float(a @ b) ** 2 <= float(a @ a) * float(b @ b):
+            break
+    zero = q8(rng.uniform(40, 90, 2))
+    imax = 3
+    grid = [(i, j) for i in range(-imax, imax + 1) for j in range(-imax, imax + 1)]
+    while True:
+        sel = rng.choice(len(grid), size=int(rng.integers(4, 16)), replace=False)
+        idx = np.array([grid[s_] for s_ in sel], dtype=np.float64)
+        if np.linalg.matrix_rank(np.hstack([np.ones((len(idx), 1)), idx])) == 3:
+            break
+    pts = zero + idx @ np.array([a, b])
+    used = {tuple(x) for x in idx.astype(int).tolist()}
+    free = [g for g in grid if g not in used]
+    nout, nweak = int(rng.integers(0, 5)), int(rng.integers(0, 3))
+    out_idx = []
+    for _ in range(nout):
+        i, j = free[int(rng.integers(len(free)))]
+        off = [(0.5, 0.5), (0.5, 0.0), (0.0, 0.5)][int(rng.integers(3))]
+        out_idx.append((i + off[0], j + off[1]))
+    outl = zero + np.array(out_idx).reshape(-1, 2) @ np.array([a, b])
+    weak_idx = np.array([free[int(rng.integers(len(free)))] for _ in range(nweak)], dtype=np.float64).reshape(-1, 2)
+    weak = zero + weak_idx @ np.array([a, b])
+    allp = np.vstack([pts, outl, weak])
+    elev = np.concatenate([q8(rng.uniform(0.5, 3, len(pts))), q8(rng.uniform(0.5, 3, nout)), q8(rng.uniform(0, 0.25, nweak))])
+    kind = np.array([0] * len(pts) + [1] * nout + [2] * nweak)
+    true_idx = np.vstack([idx, np.full((nout, 2), np.nan), weak_idx])
+    perm = rng.permutation(len(allp))
+    s = [0.0, 0.25, 0.5, 1.0][k % 4]
+    return {"pts": allp[perm], "elev": elev[perm], "kind": kind[perm], "true_idx": true_idx[perm],
+            "zero": zero, "a": a, "b": b, "start_zero": zero + q8(rng.uniform(-1, 1, 2) * s),
+            "start_a": a + q8(rng.uniform(-0.2, 0.2, 2) * s), "start_b": b + q8(rng.uniform(-0.2, 0.2, 2) * s),
+            "tol": float(q8(rng.uniform(1.0, 3.0))), "min_weight": 0.375, "min_match": int(rng.integers(2, 5))}
+
+
+def _F(v):
+    return [Fraction(float(x)) for x in np.asarray(v, dtype=float).ravel()]
+
+
+def _round_half_even(x):
+    f = x.numerator // x.denominator
+    d = x - f
+    if d < Fraction(1, 2):
+        return f
+    if d > Fraction(1, 2):
+        return f + 1
+    return f if f % 2 == 0 else f + 1
+
+
+def _exact_round(pts, zero, a, b, tol):
+    """one round of the documented selection in exact rational arithmetic: (matched?, rounded index) per point"""
+    det = a[0] * b[1] - b[0] * a[1]
+    out = []
+    for y, x in pts:
+        t0, t1 = y - zero[0], x - zero[1]
+        ij = ((t0 * b[1] - b[0] * t1) / det, (a[0] * t1 - t0 * a[1]) / det)
+        r = (_round_half_even(ij[0]), _round_half_even(ij[1]))
+        e2 = ((ij[0] - r[0]) ** 2 * (a[0] ** 2 + a[1] ** 2) / max(1, abs(ij[0]))
+              + (ij[1] - r[1]) ** 2 * (b[0] ** 2 + b[1] ** 2) / max(1, abs(ij[1])))
+        out.append((e2 < tol * tol, r))
+    return out
+
+
+def exact_hypotheses(p):
+    """the hypotheses of fastmatch_exact_recovery, evaluated exactly; returns None when they hold, else which one fails"""
+    pts = [tuple(_F(r)) for r in np.asarray(p["pts"], dtype=float)]
+    elev, kinds, ti = _F(p["elev"]), np.asarray(p["kind"]), np.asarray(p["true_idx"])
+    mw, tol = Fraction(float(p["min_weight"])), Fraction(float(p["tol"]))
+    z, a, b = _F(p["zero"]), _F(p["a"]), _F(p["b"])
+    z0, a0, b0 = _F(p["start_zero"]), _F(p["start_a"]), _F(p["start_b"])
+    if a0[0] * b0[1] - b0[0] * a0[1] == 0:
+        return "singular start"
+    true_round = _exact_round(pts, z, a, b, tol)
+    for k_, (m, _) in enumerate(true_round):
+        if kinds[k_] == 1 and elev[k_] >= mw and m:
+            return "hout"          # a strong non-node peak the true lattice would accept
+    r1 = _exact_round(pts, z0, a0, b0, tol)
+    s1 = [k_ for k_, (m, _) in enumerate(r1) if m and elev[k_] >= mw]
+    for k_ in s1:
+        if kinds[k_] == 1 or tuple(int(v) for v in ti[k_]) != r1[k_][1]:
+            return "h1"            # round one catches something that is not a node peak with its true index
+    if len(s1) < p["min_match"]:
+        return "hcount"
+    A = np.array([[1, r1[k_][1][0], r1[k_][1][1]] for k_ in s1], dtype=float)
+    if np.linalg.matrix_rank(A) < 3:
+        return "hrank"
+    return None
+
+
 def float_errors(pts, zero, a, b):
     ind = np.linalg.solve(np.array((a, b)).T, (pts - zero).T).T
     d = np.abs(ind - np.around(ind)) * (np.linalg.norm(a), np.linalg.norm(b))
@@ -138,6 +241,47 @@ def reference_selection(p, margin=0.1):
 def is_invalid(r):
     return bool(np.isnan(np.array([r.zero, r.a, r.b], dtype=float)).all() and not np.any(r.selector)
                 and len(r.indices) == 0 and r.error == np.inf)
+
+
+
+def exact_expect(p, mo=None):
+    """conclusion of fastmatch_exact_recovery on the implementation (and, if given, on the model's answer `mo`)"""
+    msgs = []
+    kinds, elev = np.asarray(p["kind"]), np.asarray(p["elev"], dtype=float)
+    want = (kinds != 1) & (elev >= p["min_weight"])
+    ti = np.asarray(p["true_idx"])[want].astype(int)
+    truth = np.concatenate([p["zero"], p["a"], p["b"]]).astype(float)
+    if mo is not None:
+        if not mo.startswith("valid "):
+            msgs.append(f"theorem instance: the model answers {mo[:40]!r}, expected a valid match")
+        else:
+            head, selbits, idx = mo.split(" | ")
+            v = [Fraction(x) for x in head[len("valid "):].split()]
+            if v != [Fraction(float(x)) for x in truth]:
+                msgs.append(f"theorem instance: the model's lattice {head} is not exactly the true lattice {truth.tolist()}")
+            if [c == "1" for c in selbits] != want.tolist():
+                msgs.append(f"theorem instance: the model's selector {selbits} is not the strong node peaks {want.astype(int).tolist()}")
+            elif [int(x) for x in idx.split()] != ti.ravel().tolist():
+                msgs.append("theorem instance: the model's indices are not the true indices")
+    try:
+        with warnings.catch_warnings():
+            warnings.simplefilter("ignore")
+            r = call(p)
+    except Exception as e:
+        return msgs + [f"fastmatch raised {type(e).__name__}: {e}"]
+    if is_invalid(r):
+        return msgs + ["noise-free lattice with a working start: the match is invalid"]
+    if not np.array_equal(r.selector, want):
+        msgs.append(f"noise-free lattice: selection {r.selector.astype(int).tolist()} is not exactly the strong node peaks "
+                    f"{want.astype(int).tolist()} (kinds {kinds.tolist()})")
+    else:
+        if not np.array_equal(np.asarray(r.indices).reshape(-1, 2), ti):
+            msgs.append("noise-free lattice: assigned indices are not the true indices")
+        got = np.concatenate([r.zero, r.a, r.b]).astype(float)
+        if np.abs(got - truth).max() > 1e-9 * max(1.0, np.abs(truth).max()):
+            msgs.append(f"noise-free lattice: returned lattice {got.tolist()} is not the true lattice {truth.tolist()} "
+                        f"(max deviation {np.abs(got - truth).max():.3g})")
+    return msgs[:6]
 
 
 def corr(ctx, drv):
@@ -188,6 +332,19 @@ def corr(ctx, drv):
                     msgs.append(f"lattice differs: impl {np.concatenate([r.zero, r.a, r.b]).tolist()} model {v.tolist()}")
         ctx.corr_case("fastmatch", p, msgs, nontrivial=bool((p["kind"] > 0).any()) and k % 4 != 0)
         ctx.count("model_" + mo.split()[0])
+    # instances of theorem fastmatch_exact_recovery: the compiled model must return the true lattice EXACTLY, the strong node
+    # peaks and their true indices; the implementation the same to float accuracy
+    for k in range(n // 2):
+        p = gen_exact(rng, k)
+        why = exact_hypotheses(p)
+        ctx.count("exact_" + (why or "holds"))
+        if why is not None:
+            continue
+        line = (f"fastmatch {rat(p['tol'])} {rat(p['min_weight'])} {p['min_match']} {rats(p['start_zero'])} "
+                f"{rats(p['start_a'])} {rats(p['start_b'])} " + rats(np.column_stack([p["pts"], p["elev"]])))
+        mo = drv.ask(line)
+        msgs = exact_expect(p, mo)
+        ctx.corr_case("exact_recovery", p, msgs, nontrivial=bool((p["kind"] > 0).any()) and k % 4 != 0)
 
 
 def run_case(kind, p):
@@ -250,6 +407,8 @@ def run_case(kind, p):
                     msgs.append(f"inliers (all within 0.3 px, elevation >= min_weight) are not exactly the selection: "
                                 f"missed {np.flatnonzero(want & ~(r.selector if got else np.zeros(len(want), bool))).tolist()} "
                                 f"(tol {p['tol']:.2f}); the second matching round should have recovered them")
+        elif kind == "exact":
+            return exact_expect(p)
         elif kind == "few":
             try:
                 r = call(p)
@@ -351,6 +510,14 @@ def search(ctx, boost=1, focus=()):
                  "rot": 0.35, "shift": [5.0, -3.0]}
             ctx.oracle_case("structured", q, run_case("structured", q), nontrivial=True)
         ctx.count("rotation_sweep")
+    # instances of theorem fastmatch_exact_recovery (noise-free node peaks, half-cell outliers, weak node peaks, perturbed
+    # start; the hypotheses are evaluated in exact arithmetic and only instances that satisfy them carry an expectation)
+    for k in range(n // 2):
+        q = gen_exact(rng, k)
+        why = exact_hypotheses(q)
+        ctx.count("exact_" + (why or "holds"))
+        if why is None:
+            ctx.oracle_case("exact", q, run_case("exact", q), nontrivial=bool((np.asarray(q["kind"]) > 0).any()))
     for q in adversarial(rng) * 1:
         ctx.oracle_case("adversarial", q, run_case("adversarial", q))
     ctx.count("oracle_structured", n)
